@@ -104,7 +104,7 @@ int main(int argc, char **argv) {
             f = hc_open(argc, argv); idx = 0;
             while ((l = hc_next(f))) {
                 if (idx++ < *done) continue;
-                alarm(20);
+                hc_alarm(20);
                 run_case(l);
                 fflush(stdout);
                 (*done)++;
